@@ -159,6 +159,10 @@ func universeOf(s string, n int, ps string, pn int) []interface{} {
 		map[int64]string{math.MinInt64: "lo", 1: "one", math.MaxInt64: "hi", -3: s}, map[int]bool{-5: true, 7: false, math.MinInt64: true},
 		map[uint64]int{math.MaxUint64: 1, 0: 2, 1 << 63: n}, map[float64]string{math.Inf(-1): "a", math.NaN(): "b", 0: s, math.Inf(1): "c"},
 		map[[2]int]string{{1, 2}: "x", {1, -9}: s, {math.MinInt64, 0}: "z"},
+		// maps inside maps (an inner map printed while the outer one's entries are being walked)
+		map[string]interface{}{"a": map[string]int{"x": 1, "y": 2, "z": n}, "m": map[int]string{2: s, 1: "o"}, "y": 2},
+		map[int]map[string][]int{1: {"p": {1, 2}, "q": nil}, 0: {}, 2: {"r": {n}}},
+		[]map[string]interface{}{{"k": map[string]string{"i": s}, "l": 1}, nil},
 		// types whose NAME holds marker characters, line feeds and partial markers (struct tags are part of the name of an
 		// unnamed struct type): %T, %#v, bad-verb and EXTRA reports print it
 		struct {
